@@ -118,8 +118,12 @@ PROPS["C11"] = {
     "assumptions": ["the number of connectors does not exceed the number of pins when all pins are exclusive ('provided a free pin exists')"],
     "parts": [{"name": "pins", "src": "c11_pins.cpp", "quick": T(120, 20, [], 100), "thorough": T(1700, 30, [], 100)}],
 }
-def SAN(name, src, args, qd, td, case_limit=30):
-    return {"name": name, "src": src, "variant": "san", "abort_is_violation": True, "quick": T(qd, case_limit, args + ["--c15", "1"], 1), "thorough": T(td, case_limit * 2, args + ["--c15", "1"], 1)}
+def SAN(name, src, args, qd, td, case_limit=30, phases=0):
+    # phases > 0: the part replays another property's alphabet under a short deadline; the deadline is spread over that many phases (--phase-slice), so that every
+    # phase is explored smallest-first for its slice instead of the first phases using everything up
+    q = args + ["--c15", "1"] + (["--phase-slice", "%.2f" % (0.8 * qd / phases)] if phases else [])
+    t = args + ["--c15", "1"] + (["--phase-slice", "%.2f" % (0.8 * td / phases)] if phases else [])
+    return {"name": name, "src": src, "variant": "san", "abort_is_violation": True, "quick": T(qd, case_limit, q, 1), "thorough": T(td, case_limit * 2, t, 1)}
 
 PROPS["C15"] = {
     "engine": "mcx-bfs",
@@ -132,20 +136,20 @@ PROPS["C15"] = {
         SAN("router_histories", "c15_router.cpp", [], 240, 2400),
         SAN("cola_api", "c15_cola_api.cpp", [], 60, 900),
         SAN("dialect_api", "c15_dialect_api.cpp", [], 60, 900),
-        SAN("vpsc", "c01_vpsc.cpp", ["--prop", "C01"], 12, 300, 10),
-        SAN("routing", "c03_routing.cpp", ["--prop", "C03"], 15, 300),
-        SAN("incremental", "c06_incremental.cpp", [], 12, 300),
-        SAN("nudging", "c10_nudging.cpp", [], 12, 300),
-        SAN("pins", "c11_pins.cpp", [], 15, 200),
+        SAN("vpsc", "c01_vpsc.cpp", ["--prop", "C01"], 24, 300, 10, phases=28),
+        SAN("routing", "c03_routing.cpp", ["--prop", "C03"], 30, 400, phases=40),
+        SAN("incremental", "c06_incremental.cpp", [], 30, 400, phases=36),
+        SAN("nudging", "c10_nudging.cpp", [], 30, 400, phases=310),
+        SAN("pins", "c11_pins.cpp", [], 30, 300, phases=580),
         SAN("hyperedges", "c12_hyperedge.cpp", [], 20, 300),
-        SAN("cola", "c07_cola.cpp", ["--prop", "C07"], 15, 300, 8),
-        SAN("cola_overlap_clusters", "c07_cola.cpp", ["--prop", "C08"], 12, 300, 8),
+        SAN("cola", "c07_cola.cpp", ["--prop", "C07"], 24, 300, 8, phases=15),
+        SAN("cola_overlap_clusters", "c07_cola.cpp", ["--prop", "C08"], 20, 300, 8, phases=13),
         SAN("overlaps", "c09_overlaps.cpp", [], 10, 100),
-        SAN("topology", "c13_topology.cpp", [], 10, 200),
-        SAN("hola", "c14_hola.cpp", [], 20, 400, 60),
-        SAN("decompositions", "c19_decomp.cpp", [], 15, 200),
-        SAN("paths", "c17_paths.cpp", [], 5, 60),
-        SAN("transforms", "c18_transforms.cpp", [], 8, 100),
+        SAN("topology", "c13_topology.cpp", [], 20, 300, phases=13),
+        SAN("hola", "c14_hola.cpp", [], 30, 400, 60, phases=15),
+        SAN("decompositions", "c19_decomp.cpp", [], 24, 300, phases=34),
+        SAN("paths", "c17_paths.cpp", [], 10, 60, phases=15),
+        SAN("transforms", "c18_transforms.cpp", [], 12, 100, phases=9),
     ],
 }
 PROPS["C20"] = {
